@@ -104,3 +104,9 @@ pub broadcast axiom fn axiom_slice_array_eq<const N: usize>(a: &[u8], b: &[u8; N
     ensures
         #[trigger] <[u8] as vstd::std_specs::cmp::PartialEqSpec<[u8; N]>>::eq_spec(a, b) == (a@ == b@),
         <[u8] as vstd::std_specs::cmp::PartialEqSpec<[u8; N]>>::obeys_eq_spec();
+
+// T5: a String always holds valid UTF-8; T4: a Bytes never holds more than isize::MAX bytes.
+pub axiom fn axiom_string_utf8(s: &String)
+    ensures utf8_ok(string_bytes(s));
+pub axiom fn axiom_bytes_len(b: Bytes)
+    ensures bv(b).len() <= isize::MAX;
